@@ -741,6 +741,16 @@ class Evaluator:
         if mut_args and not local:
             return (('call', name, f, argv, tuple(e['ga']), tr, e.get('loc')),
                     cat(pre, ['MUTCALL', name, f, [strip(a) for a in argv], e.get('loc'), tuple(e['ga'])]))
+        if (name in OWN_NAMES or e.get('unsafe')) and not local:
+            val = ('call', name, f, argv, tuple(e['ga']), tr, e.get('loc'))
+            kind = 'ALLOC' if name in ALLOC_NAMES else 'OWN'
+            return (val, cat(pre, [kind, name, f, [strip(a) for a in argv], e.get('loc'), tuple(e['ga']), bool(e.get('unsafe'))]))
+        if name in ALLOC_NAMES and not local:
+            val = ('call', name, f, argv, tuple(e['ga']), tr, e.get('loc'))
+            return (val, cat(pre, ['ALLOC', name, f, [strip(a) for a in argv], e.get('loc'), tuple(e['ga']), bool(e.get('unsafe'))]))
+        if local and e.get('unsafe'):
+            val = ('call', name, f, argv, tuple(e['ga']), tr, e.get('loc'))
+            return (val, cat(pre, ['OWN', name, f, [strip(a) for a in argv], e.get('loc'), tuple(e['ga']), True]))
         return (('call', name, f, argv, tuple(e['ga']), tr, e.get('loc')), pre)
 
     def slice_term(self, sl, ctx, e):
@@ -799,6 +809,17 @@ def _simplify_bool(c):
                     return a if a[1] else b
                 return b if a[1] else a
     return c
+
+
+OWN_NAMES = {'forget', 'drop', 'into_raw', 'from_raw', 'assume_init', 'assume_init_drop', 'assume_init_mut', 'assume_init_ref',
+             'assume_init_read', 'assert_decoding_finished', 'write_bytes', 'from_raw_parts_mut', 'from_raw_parts', 'transmute', 'dealloc',
+             'leak', 'new_unchecked', 'from_utf8_unchecked', 'take', 'read', 'copy_nonoverlapping', 'zeroed', 'drop_in_place',
+             'unwrap_unchecked', 'get_unchecked', 'get_unchecked_mut', 'transmute_copy', 'read_unaligned', 'write_unaligned', 'replace',
+             'swap', 'into_inner', 'uninit_array', 'slice_assume_init_mut', 'as_uninit_mut', 'decode_into_unchecked'} - {'take', 'read', 'replace', 'swap', 'into_inner'}
+ALLOC_NAMES = {'with_capacity', 'reserve', 'reserve_exact', 'try_reserve', 'try_reserve_exact', 'resize', 'resize_with', 'from_elem', 'repeat',
+               'alloc', 'alloc_zeroed', 'realloc', 'set_len', 'with_capacity_in', 'extend_from_slice', 'extend_from_within', 'to_vec',
+               'collect', 'extend', 'split_to', 'split_off', 'new_uninit_slice', 'new_zeroed_slice', 'new_uninit', 'truncate', 'try_from_vec',
+               'from_exact_iter', 'push', 'insert', 'push_back', 'push_front', 'into_boxed_slice', 'shrink_to_fit'}
 
 
 def _is_mut_ref(a):
@@ -989,6 +1010,8 @@ def tstr(t):
         return 'mut:%s(%s)' % (t[1], ', '.join(vstr(a) for a in t[3]))
     if k == 'SINKW':
         return 'sink%s<-%s' % (t[1], tstr(t[2]))
+    if k in ('OWN', 'ALLOC'):
+        return '%s:%s(%s)' % (k.lower(), t[1], ', '.join(vstr(a) for a in t[3]))
     if k == 'CFG':
         return 'cfg'
     if k == 'COLLECT':
